@@ -35,7 +35,8 @@ REQUIRED_THEOREMS = ["parse_never_oob", "walk_never_oob", "rejected_never_dispat
                      "rejected_never_dispatched_session", "oversize_datagram_never_dispatched",
                      "q408_never_oob", "q408_only_blocks_of_body", "q408_bounded", "q408_roundtrip", "add408Block_some_iff",
                      "qblock_missing_represents",
-                     "q2_recovery_request_bounded", "q2_bookkeeping_invariant", "q2_recovery_inside_body", "q2_burst_bounded"]
+                     "q2_recovery_request_bounded", "q2_bookkeeping_invariant", "q2_recovery_inside_body", "q2_burst_bounded",
+                     "q2_recovery_numbers_20bit", "q2_requests_20bit"]
 RULE = ("qreq / qsend: one coap_request_missing_q_block2 on received-block sets aimed at payload-set boundaries (with / without the M variant, total_len around block boundaries and beyond 2^20 blocks) and coap_send_q_blocks from every position relative to a payload-set boundary and the end of the body, against Model/QBlock.lean reqMissingQ2 / sendQNon; q408 / qenc / qset: RFC 9177 — a client in the middle of a Q-Block1 transfer is handed 4.08 responses whose missing-blocks payload is well-formed (in / out of order, duplicates, blocks at and beyond the end of the body, beyond 2^20), non-canonical, of another major type, cut anywhere, random, up to 1 KiB; the server's add_408_block encoder on edge numbers; the Q-Block2 payload-set tests and the missing-blocks walk on received-block sets; "
         "hseq: sequences of 1-8 hostile datagrams (targeted at the state: matching token/mid/path, hostile Block/Observe/ETag/OSCORE option values; field-mutated; random) delivered to a live server (idle / holding an observation / holding a partial Block1 body) or to a client with an outstanding request, from the peer's own or a foreign address, followed by a canary request that must be answered; "
         "hparse: byte strings (blind random at lengths 0..64 and a few long ones; valid encodings; 1-4 field-level mutations of valid "
@@ -211,6 +212,19 @@ def gen_qblock(ctx, n):
         if rng.random() < 0.06:
             total = rng.choice([0, 1, 2 ** 24, 2 ** 24 + 1, 2 ** 31 - 1])
         out.append("qreq %d %d %d %d %s" % (mp, rng.choice([0, 0, 1]), szx, total, ",".join(map(str, ns)) or "-"))
+    # qreq at the end of the number space (fix 856b47c): the last blocks recorded, total_len at / around / far beyond 2^20 blocks
+    for _ in range(max(8, n // 12)):
+        mp = rng.choice([1, 2, 3, 4, 10, 16])
+        szx = rng.choice([0, 0, 1, 2, 6])
+        top = 2 ** 20
+        ns = list(range(top - rng.choice([1, 1, 2, mp, mp + 1, 2 * mp]), top))
+        if rng.random() < 0.4:
+            ns = [x for x in ns if rng.random() < 0.7] or [top - 1]
+        if rng.random() < 0.3:
+            ns = list(range(0, rng.choice([1, mp, mp + 1]))) + ns
+        total = (top << (szx + 4)) + rng.choice([-(16 << szx), -1, 0, 1, 1, 16 << szx, 12345, 2 ** 30])
+        total = min(total, 2 ** 31 - 1)
+        out.append("qreq %d %d %d %d %s" % (mp, rng.choice([0, 1, 1]), szx, total, ",".join(map(str, ns))))
     # qsend: coap_send_q_blocks from every position relative to a payload-set boundary and to the end of the body
     for _ in range(n // 3):
         mp = rng.choice([1, 2, 3, 3, 4, 10, 10, 16, 255])
@@ -246,6 +260,8 @@ def judge_qblock(ctx, c):
         if len(qs) > mp or any(a >= b for a, b in zip(nums, nums[1:])) or len({n // mp for n in nums}) > 1:
             return ("spec", "a recovery request names more than MAX_PAYLOADS blocks / a block twice / blocks of several payload sets: %s" % req[:150])
         for n in nums:
+            if n >= 2 ** 20:
+                return ("spec", "a recovery request names block %d: not a 20-bit number" % n)
             if not (n * (16 << szx) < total or any(n < r for r in rec)):
                 return ("spec", "a recovery request names block %d: beyond total_len %d and above every recorded block" % (n, total))
     if w[0] == "qsend" and i.startswith("first="):
@@ -315,7 +331,7 @@ def generate(ctx, escalate=False):
     return out
 
 
-SCENARIOS = ["idle", "obs", "blk", "blk0", "cli", "b2", "b2", "osc", "osc", "qb1", "qb1", "qb2", "qb2"]
+SCENARIOS = ["idle", "obs", "blk", "blk0", "cli", "b2", "b2", "osc", "osc", "qb1", "qb1", "qb2", "qb2", "qc2", "qc2", "qc2"]
 
 
 def oscore_aimed(rng):
@@ -465,8 +481,48 @@ def qblock_dgram(rng, scen):
     return G.encode("udp", typ, rng.choice([1, 1, 1, 5]), mid, tok, sorted(opts, key=lambda o: o[0]), b"")
 
 
+def qc2_dgram(rng):
+    """a response aimed at a CLIENT in the middle of a Q-Block2 transfer (scenario qc2: GET /L, token abcd, body of 100 bytes = blocks
+    0..6 of 16, ETag 01, Size2 100, MAX_PAYLOADS 10; blocks 0 and 2 received): blocks out of order / duplicated / beyond the end /
+    at the end of the number space, SZX, ETag, Size2, Content-Format changing or missing, M bits contradicting the sizes, payload
+    set boundaries (9, 10, 11, 19, 20), Block2 and Q-Block2 mixed, other response codes"""
+    tok = rng.choice([b"\xab\xcd"] * 6 + [bytes.fromhex("200000000001"), bytes.fromhex("200000000002"), G.rbytes(rng, rng.randint(0, 8))])
+    szx = rng.choice([0, 0, 0, 0, 0, 1, 2, 6, 7])
+    bs = 16 << min(szx, 6)
+    num = rng.choice([0, 1, 1, 3, 4, 5, 6, 6, 7, 8, 9, 10, 11, 19, 20, 63, 1000, 2 ** 20 - 2, 2 ** 20 - 1])
+    m = rng.choice([1, 1, 0]) if num != 6 else rng.choice([0, 0, 1])
+    v = ((num << 4) | (m << 3) | szx).to_bytes(3, "big").lstrip(b"\0")
+    opts = [(rng.choice([31] * 8 + [23, 27]), v)]
+    c = rng.random()
+    if c < 0.7:
+        opts.append((4, b"\x01"))
+    elif c < 0.85:
+        opts.append((4, rng.choice([b"\x02", b"", b"\x01\x00", G.rbytes(rng, rng.randint(1, 8))])))
+    c = rng.random()
+    if c < 0.6:
+        opts.append((28, b"\x64"))
+    elif c < 0.85:
+        opts.append((28, rng.choice([99, 101, 112, 113, 16, 0, 2 ** 24, 2 ** 24 + 1, 2 ** 30, 2 ** 32 - 1, (num + 1) * bs, (num + 1) * bs + 1]).to_bytes(4, "big").lstrip(b"\0")))
+    if rng.random() < 0.6:
+        opts.append((12, b"" if rng.random() < 0.8 else rng.choice([b"\x2a", b"\x01\x10"])))
+    if rng.random() < 0.08:
+        opts.append((23, ((rng.randint(0, 7) << 4) | (rng.randint(0, 1) << 3) | rng.choice([0, 1])).to_bytes(2, "big").lstrip(b"\0")))
+    if rng.random() < 0.06:
+        opts.append((6, G.rbytes(rng, rng.randint(0, 3))))
+    if rng.random() < 0.05:
+        opts.append((252, G.rbytes(rng, rng.randint(0, 4))))
+    last = 4 if num == 6 and szx == 0 else bs
+    pl = G.rbytes(rng, rng.choice([last, last, last, bs, bs - 1, bs + 1, 1, 0, 2 * bs]) if bs <= 256 else rng.choice([bs, 16, 4, 0]))
+    code = rng.choice([69] * 10 + [68, 65, 95, 132, 136, 128, 160, 162])
+    return G.encode("udp", rng.choice([1, 1, 1, 1, 0, 2]), code, rng.randint(0, 0xFFFF), tok, sorted(opts, key=lambda o: o[0]), pl)
+
+
 def targeted(rng, scen):
     """a datagram aimed at the state the scenario set up: matching token/mid/paths, hostile option values"""
+    if scen == "qc2":
+        if rng.random() < 0.85:
+            return qc2_dgram(rng)
+        scen = "cli"
     if scen in ("qb1", "qb2"):
         if rng.random() < 0.8:
             return qblock_dgram(rng, scen)
@@ -539,7 +595,25 @@ def gen_sequences(ctx, n):
     out = []
     for i in range(n):
         scen = rng.choice(SCENARIOS)
-        if scen != "cli" and rng.random() < 0.12:
+        if scen == "qc2":
+            # a client in mid Q-Block2: crafted responses, the server's genuine datagrams `@k` replayed in any order, mutations
+            ds = []
+            for _ in range(rng.choice([1, 2, 3, 5, 8, 12])):
+                c = rng.random()
+                if c < 0.3:
+                    ds.append("@%d" % rng.choice([0, 1, 1, 2, 3, 4, 5, 6, 6]))
+                elif c < 0.75:
+                    ds.append(hx(targeted(rng, scen)))
+                elif c < 0.95:
+                    b = targeted(rng, scen)
+                    for _ in range(rng.choice([1, 1, 2])):
+                        b = G.mutate(rng, b)
+                    ds.append(hx(b[:1400]))
+                else:
+                    ds.append(hx(G.rbytes(rng, rng.choice([0, 1, 3, 4, 5, 8, 13, 40]))))
+            out.append("hseq qc2 %d same %s" % (rng.choice([0, 7, 8]), ";".join(ds)))
+            continue
+        if scen not in ("cli", "qc2") and rng.random() < 0.12:
             out.append("hseq %s %d %s %s" % (scen, rng.choice([0, 7]), rng.choice(["same", "other"]), ";".join(hx(b) for b in block_storm(rng))))
             continue
         ds = []
@@ -635,14 +709,8 @@ def search(ctx, tie_breaks, proof):
 
 
 def known(ctx, c):
-    # open finding c02-qblock2-num-2e20: total_len (the peer's Size2, or offset + length + 1 of a block NUM 2^20 - 1 with M) says the
-    # body has more than 2^20 blocks of this size and block 2^20 is the next one to ask for: the request carries a 4-byte Q-Block2
-    # value (not a Block option).  Exactly: the model itself names a block >= 2^20 and the implementation's datagram does not parse.
-    w = c["input"].split()
-    if w[0] == "qreq" and "req=unparsable" in (c["impl"] or "") and " req=" in (c["model"] or ""):
-        req = c["model"].split(" req=")[1].split()[0]
-        if req != "-" and any(int(t.split(".")[0]) >= 2 ** 20 for t in req.split(",")):
-            return "c02-qblock2-num-2e20"
+    # no open finding: c02-qblock2-num-2e20 is fixed (856b47c) - a request for block 2^20 / a datagram that does not parse is
+    # a contradiction again (judge_qblock)
     return None
 
 
